@@ -455,3 +455,33 @@ def fault_descs_extra(rng, tier_quick=True):
                   ftarget="b" if i % 2 == 0 else "a")
         out.append(desc(**kw))
     return out
+
+
+def breakdown_descs(rng, count, types=("d",), gen=None, meas=2):
+    """Exact Krylov breakdown: low rank, start vector inside a small invariant subspace (block of a block-diagonal matrix, an
+    exact eigenvector), few distinct eigenvalues: expand_basis() continues the factorization with a fresh direction."""
+    out = []
+    for i in range(count):
+        g = (i % 2 == 1) if gen is None else gen
+        ty = rng.choice(types)
+        n = rng.randint(10, 22)
+        tol = tol_for(rng, ty)
+        if g:
+            # rank-1 general matrices and scaled (2^+-20) breakdown inputs violate C02/C07 on the unchanged tree: recorded findings on
+            # fixed descriptors (check.py FIXED_BREAKDOWN), not part of the random profile
+            f, sv = rng.choice([(dict(fam="lowrank", rank=rng.randint(2, 3)), "rnd"), (dict(fam="blockdiag", blk=rng.randint(2, 4)), "blk"),
+                                (dict(fam="tri"), "e1"), (dict(fam="fewdist", nd=rng.randint(2, 3)), "rnd")])
+            nev, ncv = rng.randint(1, 2), rng.randint(7, 9)
+            a0 = "%d:%d:%s:%d" % (rng.choice([0, 1]), 20, tol, rng.choice(GEN_RULES))
+            cls = "gen"
+        else:
+            f, sv = rng.choice([(dict(fam="presc", spec="lowrank", rank=rng.randint(1, 3)), "rnd"), (dict(fam="blockdiag", blk=rng.randint(2, 4)), "blk"),
+                                (dict(fam="diag", spec="lin"), "e1"), (dict(fam="presc", spec="rep", mult=rng.choice([5, 6, 7])), "rnd")])
+            nev, ncv = rng.randint(1, 2), rng.randint(7, 9)
+            a0 = "%d:%d:%s:%d" % (rng.choice([0, 3]), 20, tol, rng.choice(HERM_SORT))
+            cls = rng.choice(["sym", "sym", "herm"]) if f["fam"] in ("presc", "blockdiag") else "sym"
+        kw = dict(cls=cls, ty=ty, n=n, nev=nev, ncv=min(n, ncv), seed=rng.randint(1, 10 ** 6), hist="N,V1,C0", sv1=sv, args0=a0, meas=meas, ref=0,
+                  lgs=0)
+        kw.update(f)
+        out.append(desc(**kw))
+    return out
